@@ -107,6 +107,7 @@ structure Params where
   kind : String := "plain"
   gate : Bool := false
   expiry : Bool := false
+  errs : Bool := false            -- a goroutine of the harness keeps reading Errs()
   ctx : Bool := false
   nqueues : Nat := 1
   outcomes : List Nat := []
